@@ -164,6 +164,23 @@ AtomAt(j) ==
                    <<"Q", TypeDef(<<Member("f", ty)>>)>> >>, "P", NameOnlyDomain,
                  NObj(<< <<"inner", NObj(<< <<"f", val>> >>)>>, <<"g", NBool(TRUE)>> >>)))
 
+\* ---- struct types without members (hashStruct = keccak(typeHash)) ---------------------------------------
+Memberless == <<
+  Doc(<<NameOnlyDomainType, <<"Marker", TypeDef(<<>>)>> >>, "Marker", NameOnlyDomain, NObj(<<>>)),
+  Doc(<<NameOnlyDomainType, <<"P", TypeDef(<<Member("m", "Marker"), Member("g", "uint8")>>)>>, <<"Marker", TypeDef(<<>>)>> >>, "P",
+      NameOnlyDomain, NObj(<< <<"m", NObj(<<>>)>>, <<"g", NNum("1")>> >>)),
+  Doc(<<NameOnlyDomainType, <<"P", TypeDef(<<Member("ms", "Marker[]")>>)>>, <<"Marker", TypeDef(<<>>)>> >>, "P",
+      NameOnlyDomain, NObj(<< <<"ms", NArr(<<NObj(<<>>), NObj(<<>>)>>)>> >>)),
+  Doc(<<NameOnlyDomainType, <<"P", TypeDef(<<Member("ms", "Marker[2][]")>>)>>, <<"Marker", TypeDef(<<>>)>> >>, "P",
+      NameOnlyDomain, NObj(<< <<"ms", NArr(<<NArr(<<NObj(<<>>), NObj(<<>>)>>)>>)>> >>)),
+  Doc(<<NameOnlyDomainType, <<"P", TypeDef(<<Member("q", "Q")>>)>>, <<"Q", TypeDef(<<Member("m", "Marker")>>)>>, <<"Marker", TypeDef(<<>>)>> >>,
+      "P", NameOnlyDomain, NObj(<< <<"q", NObj(<< <<"m", NObj(<<>>)>> >>)>> >>)),
+  Doc(<<NameOnlyDomainType, <<"P", TypeDef(<<Member("e", "uint8[]"), Member("f", "string[0]"), Member("ms", "Marker[]")>>)>>,
+        <<"Marker", TypeDef(<<>>)>> >>, "P", NameOnlyDomain,
+      NObj(<< <<"e", NArr(<<>>)>>, <<"f", NArr(<<>>)>>, <<"ms", NArr(<<>>)>> >>))
+>>
+MemberlessAt(j) == TItem("memberless", Memberless[j])
+
 \* ---- PRNG documents (C08 iii) ------------------------------------------------------------------
 RNames == <<"Order", "Asset", "person", "Leg", "Zeta">>
 \* member kind code: <<atom a>>, or <<-t>> struct t, with array suffix list
